@@ -22,15 +22,22 @@ def set_spaces(m):
 
 
 def template(k, vals=None):
-    out = []
+    """k module-scope variables; even-numbered ones are read by the vertex entry point, odd-numbered ones by the fragment entry point
+    (a slot is a slot whichever stages use its occupants)"""
+    out, use = [], {0: [], 1: []}
     for i in range(k):
+        sp = 'Uniform'
         if vals is None:
             out.append(f'@group(0) @binding({i}) var<uniform> v{i}: vec4<f32>;')
         else:
             p, g, b = vals[i]
             sp = (RENDER['spaces'] or [])[i] if RENDER['spaces'] and i < len(RENDER['spaces']) else 'Uniform'
             out.append(f'@group({g}u) @binding({b}u) ' + SPACE_DECL[sp].replace('{i}', str(i)) if p else f'var<private> v{i}: vec4<f32>;')
-    out.append('@fragment fn main() {}')
+            if not p:
+                sp = 'Uniform'
+        use[i % 2].append(f'let t{i} = textureDimensions(v{i});' if sp == 'Handle' else f'let t{i} = v{i}.x;')
+    out.append('@vertex fn vmain() -> @builtin(position) vec4<f32> { ' + ' '.join(use[0]) + ' return vec4<f32>(0.0); }')
+    out.append('@fragment fn main() { ' + ' '.join(use[1]) + ' }')
     return '\n'.join(out) + '\n'
 
 
